@@ -9,6 +9,8 @@ implementation of W3C F.6.5/F.6.6 (mc/refgeom.py, math only).
 import itertools
 import math
 
+import numpy as np
+
 from mc import core, refgeom
 from mc.enc import outcome
 
@@ -23,7 +25,7 @@ ASSUMPTIONS = ['mc/refgeom.arc_center_params is the reading of F.6.5/F.6.6',
                'grid only; no all-inputs claim (trigonometric code)']
 
 DIRS = [0, 45, 90, 135, 180, 225, 270, 315, 17, 200]
-DISTS = [2.0, 37.5]
+DISTS = [2.0, 37.5, 2.0e-9, 3.0e9]
 # thorough tier: finer directions, more chord lengths (incl. tiny / huge), more rotations, far-away start points
 DIRS_T = sorted(set(DIRS + list(range(0, 360, 15)) + [1, 89.999, 90.001, 179.5, 271, 359.9]))
 DISTS_T = [2.0, 37.5, 1e-3, 0.7, 4.0e4]
@@ -55,6 +57,8 @@ def grid(tier):
 def spec_of(g):
     d, dist, r, rot, fl = g[:5]
     start = STARTS_T[g[5]] if len(g) > 5 else 1.25 - 0.5j
+    if dist < 1e-6 and len(g) <= 5:
+        start = start * dist        # a tiny drawing near the origin (not a tiny feature of an ordinary one)
     end = start + dist * complex(math.cos(math.radians(d)), math.sin(math.radians(d)))
     if d % 90 == 0:
         end = start + dist * [1, 1j, -1, -1j][(d // 90) % 4]
@@ -250,6 +254,14 @@ def check_arc(g, acc):
             fd = (a.point(t + h) - a.point(t - h)) / (2 * h)
             if not abs(fd - a.derivative(t, 1)) <= 1e-6 * size * max(1.0, abs(k) ** 3):
                 acc.violation('derivative_not_derivative_of_point', sig, dict(case, t=t), observed=a.derivative(t, 1), expected=fd)
+    # the parameter as an ndarray: point and every derivative order element-wise equal to the scalar answers
+    tarr = np.array(TS, dtype=float)
+    for n_ in (0, 1, 2, 3):
+        rv = outcome(lambda: np.asarray(a.point(tarr) if n_ == 0 else a.derivative(tarr, n_)) + np.zeros(len(TS)))
+        want_v = [a.point(t) if n_ == 0 else a.derivative(t, n_) for t in TS]
+        if rv[0] != 'ok' or len(rv[1]) != len(TS) or not all(abs(complex(x) - complex(y)) <= 1e-12 * size * max(1.0, abs(math.radians(a.delta))) ** n_ for x, y in zip(rv[1], want_v)):
+            acc.violation('vector_parameter_differs_from_scalar', dict(sig, order=n_), dict(case, n=n_), observed=repr(rv)[:200], expected=repr(want_v)[:200])
+            break
     check_strict(spec, a, region, sig, case, acc)
     # approximations
     for fn, cls in (('as_cubic_curves', CubicBezier), ('as_quad_curves', QuadraticBezier)):
